@@ -58,7 +58,7 @@ manifest = {
     ],
     "checks": checks,
     "not_applicable": na,
-    "notes": "All checks are property-based tests / fuzzing (pgregory.net/rapid v1.3.0, native go fuzz in some thorough tiers). Driver: /verif/driver/verifctl.py via ./check. Exit 0 held / 1 VIOLATION / 2 INCONCLUSIVE (build failure, timeout, vacuous run). Known findings: /verif/known_findings.json.",
+    "notes": "All checks are property-based tests (pgregory.net/rapid v1.3.0, seeds derived from VERIF_SEED; no native go-fuzz campaign is registered). setup_cmd builds the harness with the go test overlay (the harness libraries use read-only shims that exist only through it). Driver: /verif/driver/verifctl.py via ./check. Exit 0 held / 1 VIOLATION / 2 INCONCLUSIVE (build failure, timeout, vacuous run). Known findings: /verif/known_findings.json. Regression inputs of repaired defects: /verif/regressions. DESIGN.md section 10 describes what was built and corrected.",
 }
 json.dump(manifest, open(os.path.join(VERIF, "MANIFEST.json"), "w"), indent=1)
 print("checks: %d, not claimed: %d" % (len(checks), len(na)))
